@@ -99,7 +99,11 @@ def engine_check(prop, report, tier, seed, n_quick=160, n_thorough=6000, extra=N
 
 
 def check_C01(report, tier, seed): engine_check("C01", report, tier, seed)
-def check_C04(report, tier, seed): engine_check("C04", report, tier, seed)
+def check_C04(report, tier, seed):
+    import suites_engine as S
+    engine_check("C04", report, tier, seed)
+    # neither PUBLISH nor PUBREL is ever repeated within one connection, whatever the server repeats
+    S.pubrel_race_family(report, "C04")
 def check_C05(report, tier, seed):
     engine_check("C05", report, tier, seed)
     import suites_client as SC
